@@ -4,8 +4,10 @@ package c02
 import (
 	"bytes"
 	"fmt"
+	"os"
 	"strconv"
 	"strings"
+	"testing"
 	"unicode/utf8"
 
 	"pgregory.net/rapid"
@@ -38,7 +40,7 @@ func frame11(payload string, sizes []int, lead, trail string) []byte {
 
 func genDec(t *rapid.T) DecCase {
 	c := DecCase{Version: rapid.SampledFrom([]string{"1.1", "1.1", "1.0"}).Draw(t, "version")}
-	c.Reply = sim.GenReply(t, rapid.IntRange(101, 120).Draw(t, "id"), "", true)
+	c.Reply = sim.GenReplyOpt(t, rapid.IntRange(101, 120).Draw(t, "id"), "", true, sim.ReplyOpt{CR: true, Big: true})
 
 	if c.Version == "1.1" {
 		c.Sizes = sim.GenPartition(t, len(c.Reply.Payload))
@@ -316,3 +318,105 @@ func runMal(c MalCase) ev.Verdict {
 }
 
 var malProp = &ev.Prop[MalCase]{ID: "C02", Name: "malformed", Gen: genMal, Run: runMal}
+
+// ---------- version 1.0: arbitrary bytes ----------
+
+// Mal10Case is arbitrary input for the 1.0 decoder.
+type Mal10Case struct {
+	Raw  []byte `json:"raw"`
+	RawQ string `json:"raw_q"`
+}
+
+func genMal10(t *rapid.T) Mal10Case {
+	pieces := []string{"", "\n", " ", "\r\n", "\t", "]]>]]>", "]]>", "]]>]]", sim.XMLDecl, "<?xml", "<rpc-reply>", "</rpc-reply>", "<ok/>", "<rpc-error>", "x", "é", "#", "##"}
+
+	var sb strings.Builder
+
+	for i := 0; i < rapid.IntRange(0, 6).Draw(t, "nPieces"); i++ {
+		sb.WriteString(rapid.SampledFrom(pieces).Draw(t, "piece"))
+	}
+
+	raw := []byte(sb.String())
+	if rapid.IntRange(0, 5).Draw(t, "bytes") == 0 {
+		raw = rapid.SliceOfN(rapid.Byte(), 0, 12).Draw(t, "rawBytes")
+	}
+
+	return Mal10Case{Raw: raw, RawQ: strconv.Quote(string(raw))}
+}
+
+// runMal10: decoding 1.0 input never panics and never returns bytes that were not received (the
+// result is the input minus a declaration / delimiter / outer white space, i.e. a subsequence);
+// a well-formed "payload ]]>]]>" yields exactly the trimmed payload.
+func runMal10(c Mal10Case) (v ev.Verdict) {
+	defer func() {
+		if r := recover(); r != nil {
+			v = ev.Fail("Record (version 1.0) panicked on %q: %v", c.Raw, r)
+		}
+	}()
+
+	r := response.NewNetconfResponse(nil, nil, "sim", 830, "1.0")
+	r.Record(append([]byte(nil), c.Raw...))
+
+	if !sim.IsSubsequence([]byte(r.Result), c.Raw) {
+		return ev.Fail("version 1.0: Result %q is not made of bytes of the input %q", r.Result, c.Raw)
+	}
+
+	v = ev.Verdict{OK: true, NonTrivial: len(c.Raw) > 0, Classes: []string{"v1.0-raw"}}
+
+	if len(bytes.TrimSpace(c.Raw)) == 0 {
+		v.Classes = append(v.Classes, "blank-input")
+	}
+
+	return v
+}
+
+var mal10Prop = &ev.Prop[Mal10Case]{ID: "C02", Name: "malformed10", Gen: genMal10, Run: runMal10}
+
+// runSizes enumerates valid 1.1 frames whose chunk sizes have 4, 5 and 6 digits.
+func runSizes(t *testing.T) {
+	if os.Getenv("VERIF_CHILD_CASE") != "" || os.Getenv("VERIF_REPLAY") != "" {
+		t.Skip()
+	}
+
+	shard, shards := 0, 1
+	fmt.Sscan(os.Getenv("VERIF_SHARD"), &shard)
+	fmt.Sscan(os.Getenv("VERIF_SHARDS"), &shards)
+
+	if shards <= 0 {
+		shards = 1
+	}
+
+	ran := 0
+
+	for i, n := range []int{9999, 10000, 10001, 65535, 65536, 99999, 100000, 123456} {
+		if i%shards != shard {
+			continue
+		}
+
+		head := fmt.Sprintf(`<rpc-reply xmlns="%s" message-id="101"><data>`, sim.BaseNS)
+		tail := "</data></rpc-reply>"
+		payload := head + strings.Repeat("a", n-len(head)-len(tail)) + tail
+
+		for _, sizes := range [][]int{{n}, {n - 1, 1}, {1, n - 1}} {
+			raw := frame11(payload, sizes, "\n", "\n")
+			r := response.NewNetconfResponse(nil, nil, "sim", 830, "1.1")
+			r.Record(raw)
+
+			c := map[string]any{"payload_bytes": n, "sizes": sizes}
+			v := ev.Verdict{OK: true, NonTrivial: true, Classes: []string{fmt.Sprintf("digits=%d", len(fmt.Sprint(sizes[0])))}}
+
+			if r.Failed != nil || r.Result != payload {
+				v = ev.Fail("valid 1.1 frame with chunk sizes %v: Failed=%v, result has %d bytes, want the %d byte payload", sizes, r.Failed, len(r.Result), n)
+			}
+
+			ran++
+			ev.RecordExternal("sizes", c, v)
+
+			if !v.OK {
+				ev.FailExternal(t, "sizes", c, v)
+			}
+		}
+	}
+
+	fmt.Printf("ENUM-OK sizes-cases=%d\n", ran)
+}
